@@ -340,7 +340,7 @@ func FillGo(rv reflect.Value, av *idl.AV) error {
 		}
 		for i, fl := range av.St.Fields {
 			x, ok := av.Fields[fl.ID]
-			if !ok {
+			if !ok || x.LeftAtDefault {
 				continue
 			}
 			if err := FillGo(rv.Field(i), x); err != nil {
